@@ -576,6 +576,7 @@ Section Main.
         * (* mapping onto list *)
           rewrite erase_comp. cbn [is_listk]. rewrite upd_PL_PD, zlen_map.
           cbn [dispatch is_funck is_listk]. unfold list_merge. fold o. unfold o at 1. cbn [is_listk negb andb children].
+          fold o. assert (Edo : delete o = false) by (unfold o; apply delete_dict_I). rewrite Edo. cbn [negb andb].
           assert (Ekv : dict_keys_ok (zlen chs) (map inj kv) = keys_valid (zlen chs) kv).
           { unfold dict_keys_ok, keys_valid. clear. induction kv as [|[k' v'] r IHr]; cbn; [reflexivity|]. now rewrite IHr. }
           rewrite Ekv. destruct (keys_valid (zlen chs) kv) eqn:Ekeys; cbn [negb].
